@@ -8,8 +8,10 @@ Tie:    (a) CPython's `functools.lru_cache` hit/miss behaviour on random request
 Oracle: for seeded model recipes M (same variable / parameter *names* in every model, different bounds, values,
         structure): observations on M — evaluate, compiled value, Jacobian (+ which fast path), Hessian, symbolic
         gradients, degrees, LP data, real solves with two methods, all again after `Parameter.set` — after an
-        adversarial prefix of k ∈ {0, 1, 5, capacity + 50} other models in this process, against the same
-        observations computed in a **fresh subprocess** (one process per chunk with all caches cleared before each
+        adversarial prefix of k ∈ {0, 1, 5, capacity + 50} other models in this process, and after *discard-and-rebuild*
+        rounds (a model of another degree class over the same names is built, analysed, sometimes solved, dropped and
+        garbage-collected, then the target is rebuilt on the recycled addresses — shallow chains and chains deeper than the
+        recursion threshold), against the same observations computed in a **fresh subprocess** (one process per chunk with all caches cleared before each
         M, plus some M in a process of their own).
 """
 from __future__ import annotations
@@ -186,6 +188,164 @@ def observe(M) -> dict:
     return out
 
 
+# ----------------------------------------------------------------------------- object lifetime: discard-and-rebuild
+
+LIFE_KINDS = ["lin", "quad", "quart", "nonpoly", "param"]
+
+
+def deep_threshold() -> int:
+    import optyx.analysis as A
+    import optyx.core.compiler as C
+    import optyx.core.autodiff as D
+
+    return max(A._RECURSION_THRESHOLD, C._RECURSION_THRESHOLD, D._RECURSION_THRESHOLD)
+
+
+def life_build(kind: str, depth: int, variant: int = 0):
+    """a model assembled term by term in a loop (left-leaning chain of `depth` additions) over the names a, b, c.
+    Every kind allocates the same number of nodes per term, so a model built after another one was dropped lands on the
+    same addresses.  `variant` changes bounds and targets (the discarded models), variant 0 is the observed target."""
+    from optyx import Variable, Parameter, Problem, exp
+
+    lo = -5.0 + variant % 3
+    vs = [Variable(n, lb=lo, ub=5.0 + variant % 4) for n in ("a", "b", "c")]
+    t = [1.0 + 0.25 * (variant % 5), -2.0, 3.0 - 0.5 * (variant % 2)]
+    p = Parameter("p", 2.0 + variant)
+    obj = None
+    for i in range(depth + 1):
+        k = i % 3
+        d = vs[k] - t[k]
+        if kind == "lin":
+            term = d * 2.0
+        elif kind == "quad":
+            term = d ** 2.0
+        elif kind == "quart":
+            term = d ** 4.0
+        elif kind == "nonpoly":
+            term = exp(d * 0.125)
+        else:
+            term = d * p
+        obj = term if obj is None else obj + term
+    if kind in ("nonpoly", "param"):
+        obj = obj + (vs[0] - t[0]) ** 2.0 + (vs[1] - t[1]) ** 2.0 + (vs[2] - t[2]) ** 2.0
+    prob = Problem()
+    prob.minimize(obj)
+    cons = [vs[0] + vs[1] + vs[2] <= 9.0]
+    prob.subject_to(cons)
+    return {"vars": vs, "obj": obj, "prob": prob, "cons": cons, "p": p, "kind": kind, "depth": depth}
+
+
+def life_observe(M, full: bool, compiled: bool = True) -> dict:
+    """analysis observations (degrees, linearity verdicts, route — nothing that pins the tree in a cache); if `compiled`
+    the compiled value; if `full` also the Jacobian and real solves (`auto` only where the route is not the expensive
+    trust-constr)"""
+    from optyx.analysis import compute_degree, is_linear, is_quadratic
+    from optyx.core.compiler import compile_expression
+    from optyx.core.autodiff import compile_jacobian
+
+    obj, vs, prob = M["obj"], M["vars"], M["prob"]
+    xs = np.array([0.75, -1.25, 1.5])
+    out = {}
+    with warnings.catch_warnings(), np.errstate(all="ignore"):
+        warnings.simplefilter("ignore")
+        out["degree"] = compute_degree(obj)
+        out["slot_degree"] = obj.degree
+        out["is_linear"] = bool(is_linear(obj))
+        out["is_quadratic"] = bool(is_quadratic(obj))
+        out["cons_degree"] = [compute_degree(c.expr) for c in M["cons"]]
+        out["route_linear"] = bool(prob._is_linear_problem())
+        out["route_method"] = "linprog" if out["route_linear"] else prob._auto_select_method()
+        out["varnames"] = [v.name for v in prob.variables]
+        out["bounds"] = [[_f(a), _f(b)] for a, b in prob.get_bounds()]
+        if compiled or full:
+            out["fn"] = _f(np.asarray(compile_expression(obj, vs)(xs)))
+        if full:
+            out["eval"] = _f(np.asarray(obj.evaluate({v.name: float(t) for v, t in zip(vs, xs)})))
+            jf = compile_jacobian([obj], vs)
+            out["jac"] = [jf.__name__] + _arr(jf(xs))
+            out["solve"] = []
+            for m in (("auto", "SLSQP") if out["route_method"] != "trust-constr" else ("SLSQP",)):
+                try:
+                    s = prob.solve(method=m)
+                    vals = {k: round(float(v), 5) for k, v in sorted(s.values.items())} if s.values else {}
+                    ov = None if s.objective_value is None else round(float(s.objective_value), 5)
+                    out["solve"].append([m, s.status.name, vals, ov])
+                except Exception as ex:  # noqa: BLE001
+                    out["solve"].append([m, "raise:" + type(ex).__name__])
+    return out
+
+
+def life_analyse(M, solve: bool):
+    """analysis-only use of a model (degree, linearity, route; an LP solve if it is one): nothing here hands the tree to a
+    cache that keeps it alive, so dropping the model really frees its nodes"""
+    from optyx.analysis import compute_degree, is_linear, is_quadratic
+
+    with warnings.catch_warnings(), np.errstate(all="ignore"):
+        warnings.simplefilter("ignore")
+        is_linear(M["obj"]); is_quadratic(M["obj"]); compute_degree(M["obj"])
+        for c in M["cons"]:
+            compute_degree(c.expr)
+        lin = M["prob"]._is_linear_problem()
+        if not lin:
+            M["prob"]._auto_select_method()
+        elif solve:
+            M["prob"].solve()
+
+
+ANALYSIS_KEYS = ("degree", "slot_degree", "is_linear", "is_quadratic", "cons_degree", "route_linear", "route_method",
+                 "varnames", "bounds")
+
+
+def lifetime_soak(rep, rng, ref, depths, rounds, full_every, targets=None):
+    """discard-and-rebuild rounds: a model of another kind is built, analysed (sometimes solved), dropped (and, every few
+    rounds, garbage-collected); then the target is rebuilt from scratch — on recycled addresses — and observed"""
+    import gc
+
+    for depth in depths:
+        for target in (targets or LIFE_KINDS):
+            want_full = ref[json.dumps(["life", target, depth])]
+            want_analysis = {k: want_full[k] for k in ANALYSIS_KEYS}
+            want_compiled = dict(want_analysis, fn=want_full["fn"])
+            others = [k for k in LIFE_KINDS if k != target]
+            for r in range(rounds):
+                N = life_build(others[r % len(others)], depth + ((r * 7) % 3 if r % 2 else 0), variant=1 + r)
+                # how much of the library the discarded model went through decides whether its nodes stay pinned by the
+                # process-wide LRU caches (compile / gradient / shallow degree keep strong references) or are really freed
+                # phase A (first two thirds): nothing is compiled, every dropped model is really freed and its addresses
+                # circulate; phase B: compiled / solved models in between (kept alive by the LRU caches), explicit collections
+                phase_b = r >= (2 * rounds) // 3
+                if phase_b and r % 3 == 2:
+                    life_observe(N, full=(r % 23 == 11))
+                else:
+                    life_analyse(N, solve=(r % 10 == 0))
+                del N
+                if phase_b and r % 4 == 0:
+                    gc.collect()
+                # most rounds only *analyse* the rebuilt target (it is freed again afterwards, so addresses keep circulating
+                # between the two families); some compile it (pinned by the compile cache), some solve it
+                full = phase_b and r % full_every == full_every - 1
+                compiled = phase_b and r % 5 == 3
+                M = life_build(target, depth, 0)
+                got = life_observe(M, full, compiled)
+                rep.evaluations += 1
+                key = f"lifetime:{target}:depth{depth}"
+                rep.histogram[key] = rep.histogram.get(key, 0) + 1
+                rep.nontrivial.add(("life", target, depth, r))
+                d = same(got, want_full if full else (want_compiled if compiled else want_analysis))
+                if d and not full:
+                    got = life_observe(M, True)   # show the effect on Jacobian and solve as well
+                    d = same(got, want_full) or d
+                del M
+                if d:
+                    k0 = d.split("/")[1].split("[")[0]
+                    rep.oracle_failures.append({
+                        "what": "observation on a rebuilt model after discard-and-rebuild rounds differs from a fresh process",
+                        "life": [target, depth], "rounds": r + 1, "where": d,
+                        "got": str(got.get(k0))[:300], "fresh": str(want_full.get(k0))[:300]})
+                    break
+            gc.collect()
+
+
 def churn(n: int, seed: int):
     """push `n` distinct expressions over the shared names through all three caches"""
     from optyx import Variable, Parameter
@@ -252,7 +412,7 @@ def reference(seeds: list[int], own_process_each: bool = False) -> dict:
     res = {}
     with ThreadPoolExecutor(8) as ex:
         for d in ex.map(one, chunks):
-            res.update({int(k): v for k, v in d.items()})
+            res.update({(int(k) if k.lstrip("-").isdigit() else k): v for k, v in d.items()})
     return res
 
 
@@ -262,7 +422,10 @@ def _ref_main():
     out = {}
     for s in seeds:
         clear_lru()
-        out[s] = observe(build_model(s))
+        if isinstance(s, list):      # ["life", kind, depth]
+            out[json.dumps(s)] = life_observe(life_build(s[1], s[2], 0), full=True)
+        else:
+            out[s] = observe(build_model(s))
     print(json.dumps(out))
 
 
@@ -359,7 +522,8 @@ def run(ctx) -> core.Report:
     thorough = ctx["tier"] == "thorough" or ctx["escalate"]
     rep = core.Report(rule="seeded model recipes (8 structural families over the same variable / parameter names, bounds and "
                            "parameter values varied) × prefix k ∈ {0, 1, 5, capacity+50}; non-trivial = (recipe, k) with k ≥ 1 "
-                           "whose prefix shares names with the model; LRU policy: random request sequences, capacities 0–6")
+                           "whose prefix shares names with the model, and every discard-and-rebuild round (5 degree classes × shallow / deep "
+                           "chains); LRU policy: random request sequences, capacities 0–6")
     base = ctx["seed"] * 1000
     n_models = 64 if thorough else 24
     seeds = [base + i for i in range(n_models)]
@@ -421,6 +585,15 @@ def run(ctx) -> core.Report:
             check(s, cap + 50, "cap+50")
             churn(64, s)
         del keep
+        # object lifetime: shallow and deep (beyond the recursion threshold) chains, each target in a process of its own
+        thr = deep_threshold()
+        depths = [6, thr + 20]
+        items = [["life", k, d] for d in depths for k in LIFE_KINDS]
+        life_ref = reference(items, own_process_each=True)
+        clear_lru()
+        lifetime_soak(rep, rng, life_ref, [6], 600 if thorough else 120, 10)
+        deep_targets = LIFE_KINDS if thorough else [LIFE_KINDS[(ctx["seed"] + i) % 5] for i in (0, 1, 3)]
+        lifetime_soak(rep, rng, life_ref, [thr + 20], 450 if thorough else 90, 10, targets=deep_targets)
     finally:
         clear_lru()
     return rep
@@ -448,6 +621,17 @@ def search(ctx, rep):
 
 def replay(payload) -> bool:
     f = payload["failure"]
+    if "life" in f:
+        kind, depth = f["life"]
+        ref = reference([["life", kind, depth]], own_process_each=True)
+        rep = core.Report()
+        clear_lru()
+        try:
+            lifetime_soak(rep, None, ref, [depth], max(300, 3 * int(f.get("rounds", 100))), 20, targets=[kind])
+        finally:
+            clear_lru()
+        print("failures:", rep.oracle_failures[:1])
+        return not rep.oracle_failures
     s = int(f["recipe"])
     ref = reference([s], own_process_each=True)
     clear_lru()
